@@ -165,7 +165,10 @@ structure Cfg where
   cloneLocked : Bool := true -- CommitFamilyEditLog takes its snapshot and clones INSIDE the version-set mutex
   threshold : Nat := 2    -- FamilyOption.CompactThreshold
   rollupOn : Bool := false -- StoreOption.Rollup non-empty: a flush marks its output for rollup
-deriving Repr
+  /-- the family's merger (kv.Merger): what a compaction writes for the contents of its inputs.
+  Abstract: theorems about content across a compaction assume only the contract `MergerOk`
+  (Lemmas/C02Tokens.lean); the harness' merger is `mergeContent`. -/
+  merge : List Content → Content := mergeContent
 
 structure St where
   ver : Nat → VData
@@ -185,12 +188,13 @@ structure St where
   lock : Option Nat            -- storeVersionSet.mutex holder
   compacting : Bool            -- family.compacting
   hist : List Edit             -- ghost: edit logs installed so far, newest first
+  flushed : List Nat           -- ghost: tables written by flushes whose version swap is done
 
 def St.init (v0 f0 : Nat) : St :=
   { ver := fun _ => {}, ref := fun _ => 0, nextVer := v0 + 1, cur := v0, active := [v0],
     nextFile := f0, disk := [], content := fun _ => [], pending := [], cref := fun _ => none,
     snap := fun _ => {}, nSnap := 0, job := fun _ => {}, nJob := 0, lock := none,
-    compacting := false, hist := [] }
+    compacting := false, hist := [], flushed := [] }
 
 def St.setJob (s : St) (j : Nat) (b : Job) : St := { s with job := upd s.job j b }
 def St.setSnap (s : St) (i : Nat) (b : Snap) : St := { s with snap := upd s.snap i b }
@@ -301,9 +305,13 @@ def jLockU (s : St) (j : Nat) : St :=
 def swapVersion (s : St) (v : Nat) (e : Edit) : St :=
   { s with active := v :: s.active, cur := v, hist := e :: s.hist }
 
+/-- ghost bookkeeping: the tables a flush commit made visible -/
+def noteFlush (s : St) (fs : List Nat) : St := { s with flushed := fs ++ s.flushed }
+
 /-- `appendVersion`: `Lock; activeVersions[v.ID()] = v; current = v; Unlock` -/
 def jSwap (s : St) (j : Nat) : St :=
-  swapVersion (setPc s j .cSwapped) (s.job j).newVer (s.job j).edit
+  noteFlush (swapVersion (setPc s j .cSwapped) (s.job j).newVer (s.job j).edit)
+    (if (s.job j).kind = .flush then outNo (s.job j) else [])
 
 /-- `appendVersion`: `previous.NumOfRef() == 0` (atomic load) -/
 def jCheck (s : St) (j : Nat) : St :=
@@ -391,7 +399,7 @@ def jstep (cfg : Cfg) (s : St) (j : Nat) : Option St :=
     | .picked => some (jPicked s j)
     | .reading => some (jRead s j)
     | .merging =>
-      if s.lock = none then some (jAlloc s j (mergeContent (b.inputs.map (fun m => s.content m.no))) 1) else none
+      if s.lock = none then some (jAlloc s j (cfg.merge (b.inputs.map (fun m => s.content m.no))) 1) else none
     | .allocd => some (jCreate cfg s j)
     | .ready =>
       if b.edit.isEmpty then some (setPc s j .cUnlocked)
